@@ -114,7 +114,7 @@ func (w *World) structuralChecks() {
 					w.failf("refcount-not-positive", "collection %q: cached item %s reachable from an open handle has count %d", name, qb(n.Item.Key), w.rc.cnt[n.Item])
 				}
 			}
-			if w.opt.TreeCheck {
+			if w.opt.TreeCheck && w.deep {
 				w.treeCheck(h, name, c, mc, nodes)
 			}
 		}
